@@ -157,6 +157,17 @@ def _elementary(repo, col, cls):
         obj = _mk(repo, cls, ev, args)
         x = kin.A("x")
         y = ev.call(fwd, [x], selfv=obj)
+        ypw = as_pw(y)
+        if len(ypw.pieces) > 1:
+            # forward is defined piecewise (jnp.where): the identity must hold on every piece, with the SAME inverse
+            backpw = as_pw(ev.call(inv, [y], selfv=obj))
+            bad = [(kin.region_name(ev, c_), r_) for c_, r_ in backpw.pieces if not r_.eq(Rat.atom("x"))]
+            col.check(not bad, "R-C17-inverse", inv, f"{cls}: inverse(forward(x)) == x on every piece of forward",
+                      f"{len(backpw.pieces)} pieces",
+                      f"forward is defined piecewise; on the region [{bad[0][0] if bad else ''}] inverse(forward(x)) reduces to "
+                      f"{bad[0][1] if bad else ''}, not x: the pieces do not fit the one inverse (a jump / kink where they meet makes "
+                      f"forward non-monotone or the round trip inexact)", node=fwd.node)
+            return
         back = rat_of(ev.call(inv, [y], selfv=obj))
         col.check(back.eq(Rat.atom("x")), "R-C17-inverse", inv, f"{cls}: inverse(forward(x)) == x",
                   "identity of canonical forms", f"inverse(forward(x)) reduces to {back}, not x", node=inv.node,
